@@ -2377,3 +2377,64 @@ M("C02-pop-keeps-the-value-when-removal-fails", "C02", F_PW,
   expect="R02.14|Dtool_MutableSequenceWrapper_pop|value|released")
 M("C02-benign-contains-releases-before-comparing-result", "C02", F_PW,
   "      int cmp = PyObject_RichCompareBool(item, value, Py_EQ);\n      Py_DECREF(item);\n      if (cmp > 0) {\n        return 1;", "      int cmp = PyObject_RichCompareBool(item, value, Py_EQ);\n      Py_XDECREF(item);\n      if (cmp > 0) {\n        return 1;", benign=True)
+
+# ================================================================ round 11
+# ---- R18.10 (S11-C18: the constant that places the cached power)
+M("C18-cached-power-window-constant", "C18", F_PD,
+  "  double dk = (-61 - e) * 0.30102999566398114 + 347;", "  double dk = (-58 - e) * 0.30102999566398114 + 347;",
+  expect="R18.10|GetCachedPower|")
+M("C18-benign-cached-power-alpha-minus-59", "C18", F_PD,
+  "  double dk = (-61 - e) * 0.30102999566398114 + 347;", "  double dk = (-60 - e) * 0.30102999566398114 + 347;", benign=True)
+# ---- R09.14 (S11-C09)
+M("C09-leftover-macro-name-not-zeroed", "C09", F_PP,
+  "        else if (expand_undefined && ident != \"true\" && ident != \"false\") {", "        else if (expand_undefined && mi == _manifests.end() &&\n                 ident != \"true\" && ident != \"false\") {",
+  expect="R09.14|expand_manifests|")
+# ---- R16.7 (S11-C16)
+M("C16-nested-types-contribute-no-edges", "C16", F_IM,
+  "    if (interrogate_type_has_module_name(thetype) && module_name == interrogate_type_module_name(thetype)) {\n      if (interrogate_type_has_library_name(thetype)) {\n        string library_name = interrogate_type_library_name(thetype);\n        std::set<string> &deps",
+  "    if (interrogate_type_has_module_name(thetype) && module_name == interrogate_type_module_name(thetype)) {\n      if (interrogate_type_is_nested(thetype)) {\n        continue;\n      }\n      if (interrogate_type_has_library_name(thetype)) {\n        string library_name = interrogate_type_library_name(thetype);\n        std::set<string> &deps",
+  expect="R16.7|write_python_table_native|")
+# ---- R17.4 tightened (S11-C17)
+M("C17-absolute-command-line-name-not-canonicalised", "C17", "src/cppparser/cppParser.cxx",
+  "  canonical.make_canonical();\n", "  if (canonical.is_local()) {\n    canonical.make_canonical();\n  }\n",
+  expect="R17.4|CPPParser::parse_file|canonical-key")
+# ---- R20.14 (S11-C20)
+MUTANTS.append({"id": "C20-range-length-after-the-move", "prop": "C20", "expect": "R20.14|request_module|", "benign": False, "edits": [
+    (F_DBX, "  int num_indices = def->next_index - def->first_index;\n  if (num_indices > 0) {", "  if (def->next_index > def->first_index) {"),
+    (F_DBX, "    _next_index += num_indices;", "    _next_index += def->next_index - def->first_index;")]})
+# ---- R10.13 (S11-C10)
+M("C10-final-class-never-abstract", "C10", F_ST,
+  "is_abstract() const {\n  VFunctions funcs;", "is_abstract() const {\n  if (_final) {\n    return false;\n  }\n  VFunctions funcs;",
+  expect="R10.13|is_abstract|")
+# ---- R06.18 (S11-C06)
+M("C06-template-parameter-default-compared-by-presence", "C06", "src/cppparser/cppClassTemplateParameter.cxx",
+  "  if (_default_type != ot->_default_type) {\n    return _default_type < ot->_default_type;", "  if ((_default_type == nullptr) != (ot->_default_type == nullptr)) {\n    return _default_type < ot->_default_type;",
+  expect="R06.18|CPPClassTemplateParameter::is_less|_default_type|")
+# ---- R12.12 (S11-C12)
+M("C12-alt-names-resized-then-appended", "C12", F_CO, "  _alt_names.reserve(num_alt_names);", "  _alt_names.resize(num_alt_names);",
+  expect="R12.12|InterrogateComponent::input|")
+# ---- R15.25 extended (S11-C15)
+M("C15-shift-type-from-unknown-left-operand", "C15", F_EX,
+  "    case '&':\n    case LSHIFT:\n    case RSHIFT:\n      return int_type;", "    case '&':\n      return int_type;\n\n    case LSHIFT:\n    case RSHIFT:\n      return elevate_type(t1, int_type);",
+  expect="R15.25|CPPExpression::determine_type|elevate_type(#0")
+# ---- R19.c (S11-C19)
+MUTANTS.append({"id": "C19-function-bodies-streamed-and-state-cleared", "prop": "C19", "expect": "R19.c|", "benign": False, "edits": [
+    (F_IB, "  out_code << function_bodies.str() << \"\\n\";", "  out_code << function_bodies.rdbuf();\n  out_code.clear(out_code.rdstate() & ~std::ios::failbit);\n  out_code << \"\\n\";"),
+    (F_IB, "  ostringstream function_bodies;", "  std::stringstream function_bodies;")]})
+# ---- R14.11 (S11-C14)
+M("C14-database-filename-points-into-a-temporary", "C14", F_IB,
+  "  def->library_name = library_name.c_str();", "  def->library_name = Filename(library_name).get_basename().c_str();",
+  expect="R14.11|InterrogateBuilder::make_module_def|")
+# ---- R05.13 (S11-C05)
+M("C05-parameter-default-presence-not-ordered", "C05", F_IN,
+  "    if (_initializer == nullptr || other._initializer == nullptr) {\n      return _initializer < other._initializer;\n    }\n", "",
+  expect="R05.13|CPPInstance::operator<|_initializer|")
+# ---- R07.18 (S11-C07)
+M("C07-signed-expansion-gets-parentheses", "C07", F_PP,
+  "          expand_manifests(result, expand_undefined, nested_ignores);\n\n          expr = expr.substr(0, q) + result + expr.substr(p);",
+  "          expand_manifests(result, expand_undefined, nested_ignores);\n          if (!result.empty() && (result[0] == '-' || result[0] == '+')) {\n            result = \"(\" + result + \")\";\n          }\n\n          expr = expr.substr(0, q) + result + expr.substr(p);",
+  expect="R07.18|expand_manifests|")
+# ---- R11.13 (S11-C11)
+M("C11-merge-looks-up-plain-name", "C11", F_DBX,
+  "      ni = types_by_name.find(other_type.get_true_name());", "      ni = types_by_name.find(other_type.get_name());",
+  expect="R11.13|merge_from|types_by_name.find")
